@@ -234,7 +234,7 @@ class Destroy(FnSpec):
 
 def add_metaread(reg):
     reg.set_class_home("MetadorMetaRead", "container/interface.py", "MetadorMeta")
-    specs = [ViewSpec("values", True), ViewSpec("items", True), ViewSpec("keys", False), GetItem(), Contains(), Destroy(), MetaInit()]
+    specs = [ViewSpec("values", True), ViewSpec("items", True), ViewSpec("keys", False), GetItem(), Contains(), Destroy(), MetaInit(), RequireSchema(), ParseObj()]
     for s in specs:
         reg.add(s)
     return specs
@@ -398,3 +398,117 @@ class MetaInit(FnSpec):
             ("every-stored-object-is-in-the-table", z3.ForAll([n], z3.Implies(z3.And(HAS_DIR, a.members.has(n)), z3.And(O.has(SCHEMA_NAME_OF(n)), O.get_term(SCHEMA_NAME_OF(n)) == n))), "after (re)opening, every object stored for the node is found under its schema name — all of them, not only the last one read"),
             ("and-nothing-else", z3.ForAll([k], z3.Implies(O.has(k), z3.And(HAS_DIR, a.members.has(O.get_term(k)), SCHEMA_NAME_OF(O.get_term(k)) == k))), "the table holds nothing but the stored objects (empty when the node has no metadata directory)"),
         ]
+
+
+# ---- _require_schema / _parse_obj: which class parses what ------------------------------------------------------------------------------
+NOT_INSTALLED = z3.Bool("no_installed_schema_supports_the_request")
+AUXILIARY = z3.Bool("resolved_schema_class_is_auxiliary")
+
+
+class SchemaClassTok(SVal):
+    name = "TheRequestedSchema"
+
+    def py_getattr(self, cx, n):
+        if n == "Plugin":
+            return type("P", (SVal,), {"py_getattr": lambda s, cx2, m: SBool(AUXILIARY) if m == "auxiliary" else (_ for _ in ()).throw(Unsupported("Plugin." + m))})()
+        raise Unsupported("schema class attribute " + n)
+
+    def meth_parse_raw(self, cx, o):
+        return ("parse_raw", o)
+
+    def meth_parse_obj(self, cx, o):
+        return ("parse_obj", o)
+
+
+class RequireSchema(FnSpec):
+    file = "container/interface.py"
+    qual = "MetadorMeta._require_schema"
+    props = ("C07",)
+
+    def init(self):
+        me = self
+
+        class PG(SVal):
+            def meth__get_unsafe(s, cx, name, ver):
+                cx.effect("get_unsafe", name, ver)
+                if cx.decide(NOT_INSTALLED):
+                    cx.py_raise("KeyError", "no compatible schema installed")
+                return me.cls_tok
+
+        self.bindings["schemas"] = PG()
+
+    def setup(self, cx):
+        self.cls_tok = SchemaClassTok()
+        a = A(schema_name=SStr.fresh("schema_name"), schema_ver=VerArg())
+        return a
+
+    def raises(self, cx, a):
+        return {"KeyError": NOT_INSTALLED, "TypeError": z3.And(z3.Not(NOT_INSTALLED), AUXILIARY)}
+
+    def ensures(self, cx, a, res):
+        g = [e for e in cx.fx if e[0] == "get_unsafe"]
+        return [("the-class-the-plugin-group-resolves-for-exactly-this-request", z3.BoolVal(res is self.cls_tok and len(g) == 1 and g[0][1] is a.schema_name and g[0][2] is a.schema_ver), "the schema class is the one the plugin group resolves for the given name AND version (newest compatible), unknown ones are a KeyError, auxiliary ones a TypeError")]
+
+
+class VerArg(SVal):
+    pass
+
+
+class ObjArg(SVal):
+    """the object handed to _parse_obj: an instance of the schema | str/bytes | another MetadataSchema instance | anything else (a dict)"""
+
+    def __init__(self, kind):
+        self.kind = kind
+
+    def py_isinstance(self, cx, c):
+        names = c if isinstance(c, (tuple, list)) else [c]
+        out = False
+        for n in names:
+            n = getattr(n, "name", n)
+            if n == "TheRequestedSchema":
+                out = out or self.kind == "instance"
+            elif n in ("str", "bytes"):
+                out = out or self.kind == "text"
+            elif n == "MetadataSchema":
+                out = out or self.kind in ("instance", "other-model")
+            elif n != "object":
+                raise Unsupported(f"isinstance against {n!r}")
+        return out
+
+    def meth_dict(self, cx, **kw):
+        if kw:
+            raise Unsupported("dict() with arguments")
+        return ("dict-of", self)
+
+
+class ParseObj(FnSpec):
+    file = "container/interface.py"
+    qual = "MetadorMeta._parse_obj"
+    props = ("C07",)
+
+    def init(self):
+        self.bindings["MetadataSchema"] = type("C", (), {"name": "MetadataSchema"})()
+
+    def setup(self, cx):
+        kind = ["instance", "text", "other-model", "dict"][cx.choose(4)]
+        a = A(schema=SchemaClassTok(), obj=ObjArg(kind))
+        a.kind = kind
+        return a
+
+    def raises(self, cx, a):
+        return {}
+
+    def ensures(self, cx, a, res):
+        if a.kind == "instance":
+            ok = res is a.obj
+            cl = "an instance of the schema is stored as it is"
+        elif a.kind == "text":
+            ok = isinstance(res, tuple) and res[0] == "parse_raw" and res[1] is a.obj
+            cl = "text or bytes are parsed by the schema's parse_raw"
+        elif a.kind == "other-model":
+            ok = isinstance(res, tuple) and res[0] == "parse_obj" and isinstance(res[1], tuple) and res[1][0] == "dict-of" and res[1][1] is a.obj
+            cl = "an instance of another schema is re-validated from ALL its fields (plain .dict()) by the requested schema"
+        else:
+            ok = isinstance(res, tuple) and res[0] == "parse_obj" and res[1] is a.obj
+            cl = "a dict is validated by the requested schema"
+        return [("parsed-by-the-requested-schema", z3.BoolVal(bool(ok)), cl + " — always by the class that was asked for, never stored unvalidated")]
